@@ -479,6 +479,10 @@ func (s *Server) handleConnReceiver(module *Module, crd *rsyncwire.CountingReade
 		// using the os.OpenRoot traversal-safe API.
 		if len(paths) == 1 && paths[0] != "/" {
 			subdir := strings.TrimPrefix(paths[0], "/")
+			// A trailing slash makes the kernel resolve a final symlink even
+			// under O_NOFOLLOW, which lets "module/link/" escape the module
+			// through a symlink stored inside it. Clean the path first.
+			subdir = filepath.Clean(subdir)
 			subRoot, err := rt.DestRoot.OpenRoot(subdir)
 			if err != nil {
 				if os.IsNotExist(err) {
